@@ -64,7 +64,38 @@ enum Obj<'a> {
 
 /// one scope: dynamic bindings (name, value, id of the `let` that bound it; 0 for parameters)
 /// and static table (name -> textual position of the `let` that binds it directly in this scope)
-struct Scope<'a> { dynamic: Vec<(&'a str, V, u32)>, statics: Vec<(&'a str, u32)> }
+/// Scopes wider than `WIDE` names keep a name index next to the tables, so that programs with tens of
+/// thousands of locals stay linear; narrower scopes are scanned (first match wins in both).
+struct Scope<'a> { dynamic: Vec<(&'a str, V, u32)>, statics: Vec<(&'a str, u32)>, dix: Option<HashMap<&'a str, usize>>, six: Option<HashMap<&'a str, u32>> }
+const WIDE: usize = 32;
+
+impl<'a> Scope<'a> {
+    fn new(dynamic: Vec<(&'a str, V, u32)>, statics: Vec<(&'a str, u32)>) -> Self {
+        let six = if statics.len() > WIDE { let mut m = HashMap::new(); for x in &statics { m.entry(x.0).or_insert(x.1); } Some(m) } else { None };
+        let mut sc = Scope { dynamic, statics, dix: None, six };
+        sc.reindex();
+        sc
+    }
+    fn reindex(&mut self) {
+        if self.dix.is_none() && self.dynamic.len() > WIDE {
+            let mut m = HashMap::new();
+            for (i, x) in self.dynamic.iter().enumerate() { m.entry(x.0).or_insert(i); }
+            self.dix = Some(m);
+        }
+    }
+    fn static_pos(&self, name: &str) -> Option<u32> {
+        match &self.six { Some(m) => m.get(name).copied(), None => self.statics.iter().find(|x| x.0 == name).map(|x| x.1) }
+    }
+    fn slot(&self, name: &str) -> Option<usize> {
+        match &self.dix { Some(m) => m.get(name).copied(), None => self.dynamic.iter().position(|x| x.0 == name) }
+    }
+    fn has(&self, name: &str) -> bool { self.slot(name).is_some() }
+    fn bind(&mut self, name: &'a str, v: V, lid: u32) {
+        if let Some(m) = &mut self.dix { m.entry(name).or_insert(self.dynamic.len()); }
+        self.dynamic.push((name, v, lid));
+        self.reindex();
+    }
+}
 
 struct Frame<'a> { scopes: Vec<Scope<'a>>, body_lets: Vec<&'a str>, is_top: bool }
 
@@ -110,34 +141,63 @@ fn is_pure_path(e: &E) -> bool {
 
 /// names declared by `let` anywhere in e, not descending into method bodies
 fn lets_in<'a>(e: &'a E, acc: &mut Vec<&'a str>) {
+    let mut seen: Option<std::collections::HashSet<&'a str>> = None;
+    lets_in_go(e, acc, &mut seen)
+}
+
+fn lets_in_go<'a>(e: &'a E, acc: &mut Vec<&'a str>, seen: &mut Option<std::collections::HashSet<&'a str>>) {
     use E::*;
     match e {
-        Let(n, v) => { if !acc.contains(&n.as_str()) { acc.push(n) } lets_in(v, acc) }
+        Let(n, v) => {
+            let present = match seen { Some(s) => s.contains(n.as_str()), None => acc.contains(&n.as_str()) };
+            if !present {
+                acc.push(n);
+                match seen { Some(s) => { s.insert(n.as_str()); } None => if acc.len() > WIDE { *seen = Some(acc.iter().copied().collect()) } }
+            }
+            lets_in_go(v, acc, seen)
+        }
         Object(p, ms) => {
-            if let Some(p) = p { lets_in(p, acc) }
-            for m in ms { if let Member::Field(_, v) = m { lets_in(v, acc) } }
+            if let Some(p) = p { lets_in_go(p, acc, seen) }
+            for m in ms { if let Member::Field(_, v) = m { lets_in_go(v, acc, seen) } }
         }
         Fun(..) => {}
-        _ => for c in e.children() { lets_in(c, acc) },
+        _ => for c in e.children() { lets_in_go(c, acc, seen) },
     }
 }
 
 /// (name -> position) of lets binding in the scope e is evaluated in (not nested scopes)
 fn direct_lets<'a>(e: &'a E, pos: &HashMap<usize, u32>, acc: &mut Vec<(&'a str, u32)>) {
+    direct_lets_of(std::iter::once(e), pos, acc)
+}
+
+/// the same over all statements of one scope (one name index for the whole scope)
+fn direct_lets_of<'a>(xs: impl Iterator<Item = &'a E>, pos: &HashMap<usize, u32>, acc: &mut Vec<(&'a str, u32)>) {
+    let mut ix: Option<HashMap<&'a str, usize>> = if acc.len() > WIDE { Some(acc.iter().enumerate().map(|(i, x)| (x.0, i)).collect()) } else { None };
+    for e in xs { direct_lets_go(e, pos, acc, &mut ix) }
+}
+
+fn direct_lets_go<'a>(e: &'a E, pos: &HashMap<usize, u32>, acc: &mut Vec<(&'a str, u32)>, ix: &mut Option<HashMap<&'a str, usize>>) {
     use E::*;
     match e {
         Let(n, v) => {
-            direct_lets(v, pos, acc);
+            direct_lets_go(v, pos, acc, ix);
             let p = pos[&key(e)];
-            if let Some(x) = acc.iter_mut().find(|x| x.0 == n.as_str()) { x.1 = p } else { acc.push((n, p)) }
+            let at = match ix { Some(m) => m.get(n.as_str()).copied(), None => acc.iter().position(|x| x.0 == n.as_str()) };
+            match at {
+                Some(i) => acc[i].1 = p,
+                None => {
+                    acc.push((n, p));
+                    match ix { Some(m) => { m.insert(n.as_str(), acc.len() - 1); } None => if acc.len() > WIDE { *ix = Some(acc.iter().enumerate().map(|(i, x)| (x.0, i)).collect()) } }
+                }
+            }
         }
         Block(_) | Fun(..) => {}
-        Array(n, v) => { direct_lets(n, pos, acc); if is_pure_path(v) { direct_lets(v, pos, acc) } }
+        Array(n, v) => { direct_lets_go(n, pos, acc, ix); if is_pure_path(v) { direct_lets_go(v, pos, acc, ix) } }
         Object(p, ms) => {
-            if let Some(p) = p { direct_lets(p, pos, acc) }
-            for m in ms { if let Member::Field(_, v) = m { direct_lets(v, pos, acc) } }
+            if let Some(p) = p { direct_lets_go(p, pos, acc, ix) }
+            for m in ms { if let Member::Field(_, v) = m { direct_lets_go(v, pos, acc, ix) } }
         }
-        _ => for c in e.children() { direct_lets(c, pos, acc) },
+        _ => for c in e.children() { direct_lets_go(c, pos, acc, ix) },
     }
 }
 
@@ -217,9 +277,8 @@ impl<'a> Interp<'a> {
         for i in (0..fr.scopes.len()).rev() {
             let sc = &fr.scopes[i];
             let is_global_scope = fr.is_top && i == 0;
-            let st = sc.statics.iter().find(|x| x.0 == name).map(|x| x.1);
-            let table = if is_global_scope { &globals.dynamic } else { &sc.dynamic };
-            let dynamic = table.iter().any(|x| x.0 == name);
+            let st = sc.static_pos(name);
+            let dynamic = if is_global_scope { globals.has(name) } else { sc.has(name) };
             if let Some(p) = st {
                 if p < pos {
                     if dynamic { return Ok(Some(i)) }
@@ -231,7 +290,7 @@ impl<'a> Interp<'a> {
         }
         if !fr.is_top {
             if self.top_static.iter().any(|x| x.0 == name) {
-                if globals.dynamic.iter().any(|x| x.0 == name) { return Ok(Some(usize::MAX)) }
+                if globals.has(name) { return Ok(Some(usize::MAX)) }
                 return unspec("U1 global let has not executed");
             }
         }
@@ -257,7 +316,7 @@ impl<'a> Interp<'a> {
                     None => self.unbound(n, fr),
                     Some(i) => {
                         let sc = if i == usize::MAX || (fr.is_top && i == 0) { &*globals } else { &fr.scopes[i] };
-                        Ok(sc.dynamic.iter().find(|x| x.0 == n.as_str()).unwrap().1)
+                        Ok(sc.dynamic[sc.slot(n).unwrap()].1)
                     }
                 }
             }
@@ -265,11 +324,12 @@ impl<'a> Interp<'a> {
                 let val = self.ev(v, fr, globals)?;
                 let lid = self.pos[&key(e)];
                 let sc = if fr.is_top && fr.scopes.len() == 1 { &mut *globals } else { fr.scopes.last_mut().unwrap() };
-                if let Some(x) = sc.dynamic.iter_mut().find(|x| x.0 == n.as_str()) {
+                if let Some(i) = sc.slot(n) {
+                    let x = &mut sc.dynamic[i];
                     if x.2 != lid { return unspec("U2 redeclaration") }
                     x.1 = val;
                 } else {
-                    sc.dynamic.push((n, val, lid));
+                    sc.bind(n, val, lid);
                 }
                 self.effects += 1;
                 Ok(val)
@@ -284,7 +344,8 @@ impl<'a> Interp<'a> {
                     None => self.unbound(n, fr),
                     Some(i) => {
                         let sc = if i == usize::MAX || (fr.is_top && i == 0) { &mut *globals } else { &mut fr.scopes[i] };
-                        sc.dynamic.iter_mut().find(|x| x.0 == n.as_str()).unwrap().1 = val;
+                        let i = sc.slot(n).unwrap();
+                        sc.dynamic[i].1 = val;
                         self.effects += 1;
                         Ok(val)
                     }
@@ -292,8 +353,8 @@ impl<'a> Interp<'a> {
             }
             Block(xs) => {
                 let mut st = vec![];
-                for x in xs { direct_lets(x, &self.pos, &mut st) }
-                fr.scopes.push(Scope { dynamic: vec![], statics: st });
+                direct_lets_of(xs.iter(), &self.pos, &mut st);
+                fr.scopes.push(Scope::new(vec![], st));
                 let mut v = Ok(V::Null);
                 for x in xs {
                     v = self.ev(x, fr, globals);
@@ -368,7 +429,7 @@ impl<'a> Interp<'a> {
                 let mut st = vec![];
                 direct_lets(init, &self.pos, &mut st);
                 for i in 0..len {
-                    fr.scopes.push(Scope { dynamic: vec![], statics: st.clone() });
+                    fr.scopes.push(Scope::new(vec![], st.clone()));
                     let v = self.ev(init, fr, globals);
                     fr.scopes.pop();
                     let v = v?;
@@ -471,7 +532,7 @@ impl<'a> Interp<'a> {
         let mut st = vec![];
         direct_lets(body, &self.pos, &mut st);
         let dynamic = params.iter().zip(args.iter()).map(|(p, a)| (*p, *a, 0u32)).collect();
-        let mut fr = Frame { scopes: vec![Scope { dynamic, statics: st }], body_lets: bl, is_top: false };
+        let mut fr = Frame { scopes: vec![Scope::new(dynamic, st)], body_lets: bl, is_top: false };
         let r = self.ev(body, &mut fr, globals);
         self.depth -= 1;
         r
@@ -715,12 +776,12 @@ pub fn run_with(stmts: &[E], fuel: Fuel, switches: &[String]) -> RefResult {
             }
         }
         let mut ts = vec![];
-        for s in &body { direct_lets(s, &it.pos, &mut ts) }
+        direct_lets_of(body.iter().copied(), &it.pos, &mut ts);
         it.top_static = ts.clone();
         // The global scope's bindings live in `globals` (shared with function bodies); scope 0 of the
         // top frame only carries the static table and is redirected to `globals` by lookup/let/set.
-        let mut globals = Scope { dynamic: vec![], statics: vec![] };
-        let mut fr = Frame { scopes: vec![Scope { dynamic: vec![], statics: ts }], body_lets: it.top_lets.clone(), is_top: true };
+        let mut globals = Scope::new(vec![], vec![]);
+        let mut fr = Frame { scopes: vec![Scope::new(vec![], ts)], body_lets: it.top_lets.clone(), is_top: true };
         for s in body { it.ev(s, &mut fr, &mut globals)?; }
         Ok(())
     })();
